@@ -677,3 +677,25 @@ Definition in_frag (cls : Heck.CharClasses) (D : defs) : bool :=
   && forallb (fun kv => frag cls (map fst D) (snd kv)) D
   && Sanitize.unique (all_names cls D)
   && byval_acyclic D.
+
+(* ------------------------------------------------------------------ side condition of C05 on the fragment
+   `{"type": ["string","null"], "enum": [strings]}` becomes Option<enum>, which
+   accepts `null` although `null` is not one of the enumerated values
+   (convert.rs:63-116 keeps "null" in the type and drops it from nothing): the
+   C05 validator Check/Exact.v refuses that shape (rightly).  Documents without
+   it: *)
+Fixpoint no_nullable_enum (s : schema) {struct s} : bool :=
+  match s with
+  | SBool _ => true
+  | SObj ty fmt enum cst nv sv ik items ai mni mxi uq props req ap mnp mxp allo anyo oneo no ref dflt title =>
+      match classify ty fmt enum cst nv sv ik items ai mni mxi uq props req ap mnp mxp allo anyo oneo no ref dflt title with
+      | Some (true, KEnum _) => false
+      | Some (_, KStruct _) => forallb (fun kv => no_nullable_enum (snd kv)) props
+      | Some (_, KMap) => match ap with Some vs => no_nullable_enum vs | None => true end
+      | Some (_, KVec) => forallb no_nullable_enum items
+      | _ => true
+      end
+  end.
+
+Definition in_frag_exact (cls : Heck.CharClasses) (D : defs) : bool :=
+  in_frag cls D && forallb (fun kv => no_nullable_enum (snd kv)) D.
